@@ -133,6 +133,9 @@ class Gen:
         self.ops = None
         self.view = None
         self.pending_coll = []
+        self.csum = "^metadata_csum" not in cfg[1] and "-t ext4" in cfg[1]
+        self.focus = self.profile in ("long", "collision") and self.bs <= 2048 and rng.random() < 0.7
+        self.packs = []
 
     # -- plan ---------------------------------------------------------------------------
     def _make_plan(self):
@@ -145,7 +148,12 @@ class Gen:
             return [("subdirs", 5000)] * 13 + [("fsck", "-fy"), ("subdirs_remove", 300), ("fsck", "-fyD"),
                                                ("subdirs", 200)]
         plan = [("setup",)]
-        plan.append(("fsck", "-fyD"))
+        if self.kind == "htree":
+            plan.append(("pack_create",))
+            plan.append(("fsck", "-fyD"))
+            plan.append(("pack_hit",))
+        else:
+            plan.append(("fsck", "-fyD"))
         left = max(100, n - 60)
         grow1 = int(left * rng.uniform(0.35, 0.55))
         k = grow1
@@ -502,7 +510,104 @@ class Gen:
 
     # -- chunks -------------------------------------------------------------------------
     def pick_work(self):
+        if self.focus and self.rng.random() < 0.75:
+            return self.m.objs[self.work[0]]
         return self.m.objs[self.rng.choice(self.work)]
+
+    # -- packed leaves ------------------------------------------------------------------
+    def pack_template(self):
+        """Sizes (rec_len) of names in hash order that e2fsck -D will pack into the first
+        leaf of a small directory, which of them to delete afterwards, and the length of the
+        name to insert into that leaf then.  Aims at leaves that are full for the new name
+        although their live entries fill half a block or less (a dead head entry, slack
+        behind a long live entry), and at random layouts."""
+        rng = self.rng
+        usable = self.bs - (12 if self.csum else 0)
+        r = rng.random()
+        pat = None
+        if r < 0.6 and self.bs == 1024:
+            for _ in range(40):
+                e = rng.randrange(236, 264, 4)
+                sl = rng.randrange(216, 264, 4)
+                rest = usable - e - 264 - sl
+                if rest < 16:
+                    continue
+                if rng.random() < 0.35 and rest >= 40:
+                    b1 = rng.randrange(12, rest - 12, 4)
+                    tail = [(b1, False), (rest - b1, False)]
+                else:
+                    tail = [(rest - rng.choice([0, 0, 4, 8]), False)]
+                pat = [(e, True), (264, False), (sl, True)] + tail
+                if rng.random() < 0.2:
+                    pat = [(e, True)] + tail[:1] + [(sl, True), (264, False)] + tail[1:]
+                break
+        if pat is None:
+            pat = []
+            tot = 0
+            while tot < usable - 180:
+                rl = rng.choice([264, 264, 260, 256, 228, 200, 132, 64, 24, 16, 12])
+                if tot + rl > usable:
+                    break
+                pat.append((rl, rng.random() < 0.45))
+                tot += rl
+            if not any(dl for _r, dl in pat):
+                pat[0] = (pat[0][0], True)
+        return pat, rng.choice([255, 255, 254, 253, 252, 250, 200])
+
+    def chunk_pack_create(self):
+        rng = self.rng
+        base = self.m.objs[self.work[0]]
+        self.packs = []
+        for _k in range(rng.choice([2, 3, 4, 5])):
+            self.goto(base.oid)
+            dn = self.fresh_name(base, allow_special=False)
+            self.emit(("mkdir", dn))
+            self.emit(("cd", dn))
+            d = self.m.cwdobj()
+            pat, newlen = self.pack_template()
+            fill = rng.choice([4, 5, 6])
+            nslots = len(pat) + 1 + fill
+            step = (1 << 32) // nslots
+            todel = []
+            ok = True
+            for j, (rl, dl) in enumerate(pat):
+                ln = max(1, rl - 8 - rng.choice([0, 1, 2, 3]))
+                if ln < 4:
+                    ln = 4 if rl >= 12 else ln
+                n = L.name_in_range(rng, self.hp, j * step + 64, (j + 1) * step - 64, max(ln, 4), d.entries, tries=6000)
+                if n is None:
+                    ok = False
+                    break
+                self.create(d, kinds=["mknod", "mknod", "symlink", "write", "mkdir"], name=n)
+                if dl:
+                    todel.append(n)
+            for j in range(len(pat) + 1, nslots):
+                n = L.name_in_range(rng, self.hp, j * step + 64, (j + 1) * step - 64, rng.choice([253, 254, 255]),
+                                    d.entries, tries=6000)
+                if n is not None:
+                    self.create(d, kinds=["mknod", "symlink"], name=n)
+            if ok:
+                self.packs.append((d.oid, todel, newlen, (1, len(pat) * step - 64)))
+            self.emit(("cd", b".."))
+
+    def chunk_pack_hit(self):
+        rng = self.rng
+        for oid, todel, newlen, (lo, hi) in getattr(self, "packs", []):
+            if oid not in self.m.objs:
+                continue
+            d = self.m.objs[oid]
+            self.goto(oid)
+            for n in todel:
+                if n in d.entries:
+                    self.remove(d, name=n)
+                    if self.m.cwd != oid:
+                        self.goto(oid)
+            for _ in range(rng.choice([1, 1, 2, 3])):
+                n = L.name_in_range(rng, self.hp, lo, hi, newlen, d.entries, tries=6000)
+                if n is not None:
+                    self.create(d, kinds=["mknod", "mknod", "symlink", "mkdir"], name=n)
+                    self.stats["packed_leaf_inserts"] = self.stats.get("packed_leaf_inserts", 0) + 1
+        self.packs = []
 
     def est_bytes(self, d):
         return sum(((8 + len(n) + 3) & ~3) for n in d.entries)
@@ -725,6 +830,10 @@ class Gen:
                 self.chunk_regrow(item[1])
             elif item[0] == "epilogue":
                 self.chunk_epilogue()
+            elif item[0] == "pack_create":
+                self.chunk_pack_create()
+            elif item[0] == "pack_hit":
+                self.chunk_pack_hit()
             elif item[0] == "massfill":
                 self.chunk_massfill(item[1])
             elif item[0] == "subdirs":
@@ -914,10 +1023,20 @@ def compare_tree(im, model, hosts_content, filetype):
     return None, inos, shapes, maxent
 
 
-def accounting(im, model, ck):
+def accounting(im, model, ck, inos):
     """inode / block accounting against the model and the independent owner map"""
     sb = im.sb
     first = sb.first_ino
+    named = set(inos.values())
+    for ino in sorted(ck.inodes):
+        if ino >= first and ino not in named:
+            i = ck.inodes[ino]
+            tname = {I.S_IFDIR: "dir", I.S_IFREG: "file", I.S_IFLNK: "symlink", I.S_IFIFO: "fifo",
+                     I.S_IFCHR: "chrdev", I.S_IFBLK: "blkdev"}.get(i.fmt, "other")
+            return ("C10 unreferenced-inode %s" % tname,
+                    "inode %d (mode %o, link count %d, %s in the inode bitmap) is in use according to the inode table "
+                    "but no directory names it and the model has no such object" %
+                    (ino, i.mode, i.links, "marked" if im.inode_allocated(ino) else "not marked"))
     ipg = sb.s_inodes_per_group
     used = 0
     for g in range(im.groups):
@@ -1079,7 +1198,7 @@ def observe(ctx, env_fs, model, workdir, cfgkind, full=True):
                 out["harness"] = "independent checker crashed: %s" % det
                 return out
             if ck is not None:
-                av = accounting(im, model, ck)
+                av = accounting(im, model, ck, inos)
                 if av:
                     out["viol"] = av
                     return out
@@ -1207,10 +1326,7 @@ def execute(ctx, cfg, desc, seed, stepper, workdir, stats=None):
                         res["at"] = (len(res["steps"]) - 1, k)
                         return res
                     st["expected_failures"][op[0]] = st["expected_failures"].get(op[0], 0) + 1
-                    for x in outs[k]:
-                        if x.strip():
-                            st["fail_msgs"].add(re.sub(rb'"[^"]*"', b'"X"', x)[:70].decode("latin-1"))
-                            break
+                    st["fail_msgs"].add(op[0] + ": " + fail_phrase(outs[k]))
             if not model.settled():
                 res["undef"] = True
                 return res
@@ -1246,6 +1362,19 @@ def execute(ctx, cfg, desc, seed, stepper, workdir, stats=None):
             res["after"] = step["t"] if step["t"] == "dbg" else "e2fsck " + step["mode"]
             return res
     return res
+
+
+PHRASES = [b"already exists", b"File not found by ext2_lookup", b"Ext2 inode is not a directory",
+           b"file is a directory", b"file is not a directory", b"directory not empty",
+           b"No free space in the directory", b"Usage"]
+
+
+def fail_phrase(outlines):
+    blob = b" ".join(outlines)
+    for ph in PHRASES:
+        if ph in blob:
+            return ph.decode()
+    return "other: " + re.sub(rb"[^ -~]", b"?", blob.strip())[:40].decode()
 
 
 def why_fail(model, op):
